@@ -11,7 +11,12 @@ pub type Float = f32;
 pub struct Rng(pub u64);
 impl Rng {
     pub fn new(seed: u64) -> Self {
-        Rng(seed.wrapping_mul(0x9E3779B97F4A7C15).wrapping_add(0xD1B54A32D192ED03))
+        // scramble the seed twice so that neighbouring seeds give unrelated streams
+        // (state = seed * golden would make seed s+1 the stream of s shifted by one draw)
+        let mut r = Rng(seed ^ 0xD1B54A32D192ED03);
+        let a = r.next();
+        let mut r2 = Rng(a ^ seed.rotate_left(32));
+        Rng(r2.next())
     }
     pub fn next(&mut self) -> u64 {
         self.0 = self.0.wrapping_add(0x9E3779B97F4A7C15);
